@@ -733,7 +733,7 @@ func c45VerChild(tier string, idx int, dir string) (code int) {
 			c, ok := costOf(w.Chain, table, t)
 			if !ok {
 				unbounded++
-				unboundedAt = append(unboundedAt, fmt.Sprintf("%s.%s(class %q)", short(t.ToClientID), t.FunctionName, classes[t.Hash]))
+				unboundedAt = append(unboundedAt, fmt.Sprintf("%s (pool class %q)", t.FunctionName, classes[t.Hash]))
 				continue
 			}
 			total.Add(total, c)
@@ -943,8 +943,8 @@ func reexecute(w *world.World, prev *block.Block, b *block.Block) (root string, 
 func c45Parent(tier string) int {
 	run := mon.NewRun("C45", tier, "exploration",
 		"scenario = chain of blocks; node A (child process: real chain on rocksdb + miner chain + redis pool) fills its pool from a hostile generator through the real admission handler chain.PutTransaction (stale content also behind it) and calls the real GenerateRoundBlock; the serialised block (msgpack/JSON alternating) goes to node B (second child process, own world from the same seed, another miner identity) which re-executes it through UpdateState and runs the real VerifyRoundBlock, then adopts it; distinct = block shapes (multiset of pool classes x status, multi-txn senders, built-ins)")
-	dir := exchangeDir("c45")
-	n := scale(tier, 8, 40)
+	dir := exchangeDir("exchange-C45") // not "c<N>": RunChildren uses and removes scratch/c<index> per child
+	n := scale(tier, 16, 48)
 	var gen, ver []mon.ChildSpec
 	for i := 0; i < n; i++ {
 		gen = append(gen, mon.ChildSpec{Name: fmt.Sprintf("gen-%d", i), Args: childArgs("C45", tier, "gen", i, dir), Timeout: time.Duration(scale(tier, 100, 600)) * time.Second})
@@ -962,9 +962,9 @@ func c45Parent(tier string) int {
 	if run.Counter("gen_harness_panics")+run.Counter("ver_harness_panics")+run.Counter("dup_harness_panics") > 0 {
 		run.Inconclusive("a child could not build its node (harness panic, see counters)")
 	}
-	run.RequireMin("blocks_verified", int64(scale(tier, 16, 120)))
-	run.RequireMin("blocks_verified_on_non_genesis_state", int64(scale(tier, 10, 80)))
-	run.RequireMin("monitor:nonce-consecutive", int64(scale(tier, 300, 3000)))
+	run.RequireMin("blocks_verified", int64(scale(tier, 40, 300)))
+	run.RequireMin("blocks_verified_on_non_genesis_state", int64(scale(tier, 30, 240)))
+	run.RequireMin("monitor:nonce-consecutive", int64(scale(tier, 800, 8000)))
 	run.RequireMin("monitor:dup-builtin-validate", 4)
 	run.Assume("both nodes run in one machine and take wall-clock time from it (block creation date = time.Now of node A); transaction creation dates are relative to it, so hashes differ between runs while the case classes are functions of VERIF_SEED")
 	run.Assume("the pool is filled through chain.PutTransaction (the handler behind /v1/transaction/put); only content that admission would have let in at an earlier time/state (past nonce, too old, balance spent, fee table changed, duplicate nonce, beyond the nonce window, replays) is also written behind it. Forged signatures/hashes never enter the pool this way (VERIF_MINT_FORGED=1 explores that)")
